@@ -198,13 +198,14 @@ func checkDefs() map[string]CheckDef {
 		Obligations: []Obligation{
 			{Pkg: "internal/verifh/c05", Harness: "VerifC05History", Quick: map[string]int{"h": 4}, Thor: map[string]int{"h": 5}, TV: 30, Note: "deterministic run-to-block schedule, longer histories"},
 			{Pkg: "internal/verifh/c05", Harness: "VerifC05History", Sched: true, Quick: map[string]int{"h": 3, "P": 0, "race": 1}, Thor: map[string]int{"h": 4}, Note: "all wake-up orders at blocking points, happens-before race detection"},
+			{Pkg: "internal/verifh/c05", Harness: "VerifC05TwoEvents", Sched: true, Quick: map[string]int{"P": 0, "race": 1}, TV: 6, Note: "registered events for both channels of a family handled concurrently (the Register stub is a schedule point): outcome must equal one of the two sequential orders"},
 		},
 		Assumptions: append(append([]string{}, commonAssumptions...),
 			"the RegisterSubscriber is a harness stub: Subscribe returns a subscription fed by the harness, Register records its arguments and succeeds",
 			"the real watcher goroutines run under the engine's cooperative scheduler; the 1 ms statesFromClientWaitTime timer and all other timers fire on the virtual clock only when no goroutine can run; after every step the harness waits for quiescence",
 			"single-ledger channels; a sub-channel is locked in the parent's newest state only if the watcher knows it (watched, or archived while locked)",
 			"reference: DESIGN.md Appendix A.5 (event version below the own registered version: unconstrained)"),
-		BoundsText: "one ledger channel and one sub-channel; symbolic versions (< 2^60) of initial states, of every published transaction (strictly increasing per channel by a symbolic step) and of every adjudicator event; symbolic locked flag per parent publication; histories of h steps over {publish parent, publish sub, event for parent, event for sub (registered/progressed/concluded), start sub, stop sub, stop parent (refused while the sub-channel is watched)}; h=4 (5 thorough) under the deterministic schedule, h=3 (4 thorough) under all wake-up orders at blocking points with race detection",
+		BoundsText: "one ledger channel and one sub-channel; symbolic versions (< 2^60) of initial states, of every published transaction (strictly increasing per channel by a symbolic step) and of every adjudicator event; symbolic locked flag per parent publication; histories of h steps over {publish parent, publish sub, event for parent, event for sub (registered/progressed/concluded), start sub, stop sub, stop parent (refused while the sub-channel is watched)}; h=4 (5 thorough) under the deterministic schedule, h=3 (4 thorough) under all wake-up orders at blocking points with race detection; two-events obligation: both channels watched with newer published transactions, one registered event each with symbolic versions delivered back to back, every schedule of the two handlers at blocking points and at the Register call",
 		Outside:    []string{"multi-ledger forcing rule", "more than one sub-channel", "failing Register calls", "preemptions inside the handlers (P>0)"},
 	})
 	clientAssume := append(append([]string{}, commonAssumptions...), cryptoAssumptions[0],
